@@ -672,6 +672,10 @@ class Explorer:
         self.radicals = {}      # radicand key -> value of its square root
         self.radical_defs = {}  # id of radical const -> (radical const, radicand term)
         self.pending_rads = {}  # name -> (radical const, radicand): definition not yet given to the solver
+        self.alg_defs = {}      # id of symbol -> (symbol, term its square equals): radicals and sin symbols, for nf
+        self.trig = {}          # id of angle term -> (angle term, cos, sin)
+        self._atan2 = {}        # (id y, id x) -> (terms, result)
+        self._pi = None
         self.model = None
         self.asserted = False
         self.names = set()
@@ -894,12 +898,83 @@ class Explorer:
             if self._model_says(nonneg) is not True:
                 self.model = None
         self.pending_rads[r.decl().name()] = (r, core)
+        self.alg_defs[r.get_id()] = (r, core)
         rs = SReal(r)
         self.radical_defs[r.get_id()] = (r, core)
         if ckey is not None:
             self.radicals[ckey] = (rs, core)
         out = rs if q == 1 else q * rs
         self.radicals[key] = (out, t)
+        return out
+
+    # ---- transcendental stubs (DESIGN.md 3.3): uninterpreted symbols with a few sound axioms
+    @property
+    def pi(self):
+        if self._pi is None:
+            p = z3.Real("pi")
+            self._add(z3.And(p > _rv(Fraction(31415, 10000)), p < _rv(Fraction(31416, 10000))))
+            self.model = None
+            self._pi = SReal(p)
+            self.assumptions_used.add("pi is an unspecified real in (3.1415, 3.1416)")
+        return self._pi
+
+    def cos_sin(self, angle):
+        """(cos, sin) of an angle: fresh symbols tied only by cos^2 + sin^2 = 1 (same angle term -> same symbols)"""
+        if not isinstance(angle, _SNum) or angle.v is not None:
+            a = float(angle.v if isinstance(angle, _SNum) else angle)
+            return math.cos(a), math.sin(a)
+        t = z3.simplify(_toreal(angle.t, angle.is_int))
+        hit = self.trig.get(t.get_id())
+        if hit is not None:
+            return hit[1], hit[2]
+        k = len(self.trig)
+        c, s_ = z3.Real("cos!%d" % k), z3.Real("sin!%d" % k)
+        self._add(c * c + s_ * s_ == 1)
+        self.model = None
+        self.alg_defs[s_.get_id()] = (s_, 1 - c * c)
+        self.assumptions_used.add("cos/sin are uninterpreted symbols constrained only by cos^2+sin^2=1")
+        out = (SReal(c), SReal(s_))
+        self.trig[t.get_id()] = (t, out[0], out[1])
+        return out
+
+    def atan2(self, y, x):
+        """atan2 of symbolic arguments: a fresh real per distinct argument pair (pairs are identified through the exact
+        normal form of the arguments, so syntactically different but equal polynomials share the result), constrained by
+        range, sign and antisymmetry axioms only.  No uninterpreted function is used: the logic stays QF_NRA."""
+        ys = isinstance(y, _SNum) and y.v is None
+        xs = isinstance(x, _SNum) and x.v is None
+        if not (ys or xs):
+            return math.atan2(float(y.v if isinstance(y, _SNum) else y), float(x.v if isinstance(x, _SNum) else x))
+        from . import nf
+        ysr = y if isinstance(y, _SNum) else SReal(_rv(y), _frac(y))
+        xsr = x if isinstance(x, _SNum) else SReal(_rv(x), _frac(x))
+        yt = z3.simplify(_toreal(ysr.t, ysr.is_int))
+        xt = z3.simplify(_toreal(xsr.t, xsr.is_int))
+
+        def canon(t):
+            e = nf.normal_form(t, self.alg_defs)
+            return str(e) if e is not None else "id%d" % t.get_id()
+        ky, kx, kny = canon(yt), canon(xt), canon(z3.simplify(-yt))
+        hit = self._atan2.get((ky, kx))
+        if hit is not None:
+            return hit[1]
+        k = len(self._atan2)
+        a = z3.Real("atan2!%d" % k)
+        pi = self.pi.t
+
+        def tt(c):
+            return c.t if isinstance(c, SBool) else (_TRUE if c else _FALSE)
+        ypos, yneg, yzero = tt(ysr > 0), tt(ysr < 0), tt(ysr == 0)
+        axioms = [a > -pi, a <= pi, z3.Implies(ypos, a > 0), z3.Implies(yneg, a < 0),
+                  z3.Implies(z3.And(yzero, xt >= 0), a == 0), z3.Implies(z3.And(yzero, xt < 0), a == pi)]
+        other = self._atan2.get((kny, kx))
+        if other is not None:
+            axioms.append(z3.Implies(z3.Not(yzero), a == -other[1].t))
+        self._add(z3.And(*axioms))
+        self.model = None
+        self.assumptions_used.add("atan2 results are unspecified reals constrained by range (-pi,pi], sign and antisymmetry axioms only")
+        out = SReal(a)
+        self._atan2[(ky, kx)] = ((yt, xt), out)
         return out
 
     # ---- inputs
@@ -1010,6 +1085,7 @@ class Explorer:
 
     def check(self, cond, label, key=None, required=True, detail=None):
         """obligation: cond holds on every input that reaches this point on this path"""
+        cond = _unbox(cond)
         self.stats.checks += 1
         self.asserted = True
         if isinstance(cond, SInt):
@@ -1045,6 +1121,7 @@ class Explorer:
 
     def check_eq(self, a, b, label, key=None, required=True, tol=None, detail=None):
         """a == b (exact in symbolic mode: first by normal form, then by SMT)"""
+        a, b = _unbox(a), _unbox(b)
         self.stats.checks += 1
         self.asserted = True
         sa, sb = isinstance(a, _SNum) and a.v is None, isinstance(b, _SNum) and b.v is None
@@ -1065,7 +1142,7 @@ class Explorer:
             return ok
         from . import nf
         self._ensure_feasible()
-        z = nf.is_zero(_toreal(d.t, d.is_int), self.radical_defs)
+        z = nf.is_zero(_toreal(d.t, d.is_int), self.alg_defs)
         if z is True:
             self.stats.checks_nf += 1
             if len(self.samples) < 4:
@@ -1204,6 +1281,16 @@ class Explorer:
                 return False
 
 
+def _unbox(x):
+    """0-d / 1-element numpy arrays (e.g. a Vec returned by np.sum on an object array) -> their element"""
+    if hasattr(x, "dtype") and hasattr(x, "shape") and getattr(x, "size", 0) == 1:
+        try:
+            return x.item() if x.dtype != object else x.reshape(-1)[0]
+        except Exception:
+            return x
+    return x
+
+
 def _short(t, n=400):
     s = t.sexpr() if hasattr(t, "sexpr") else str(t)
     s = " ".join(s.split())
@@ -1276,6 +1363,14 @@ class Concrete:
     def concrete(self, x):
         return x
 
+    pi = math.pi
+
+    def cos_sin(self, angle):
+        return math.cos(angle), math.sin(angle)
+
+    def atan2(self, y, x):
+        return math.atan2(y, x)
+
     def assume(self, cond):
         if not cond:
             raise PathAbort("assumption false in replay")
@@ -1287,6 +1382,7 @@ class Concrete:
 
     def check_eq(self, a, b, label, key=None, required=True, tol=None, detail=None):
         tol = self.tol if tol is None else tol
+        a, b = _unbox(a), _unbox(b)
         try:
             ok = abs(a - b) <= tol * (1 + abs(a) + abs(b))
         except TypeError:
